@@ -1,0 +1,45 @@
+//go:build verif
+
+// Verification contracts for the SQL parser (C35; comment-only; read by /verif/govc).
+// This file contains no executable code.
+//
+// The parser finds keyword positions in a lower-cased copy of the text (`lower`) and slices the original text (`raw`)
+// at those positions. That is only meaningful - and only in bounds - when both have the same byte length; every
+// function that mixes the two states it as a precondition, and Parse / parseExplain must establish it.
+
+package sql
+
+//@ func parseSelect
+//@   requires [C35.lower_same_length_as_raw] len(lower) == len(raw)
+//@ func parseSelectColumns
+//@   requires [C35.lower_same_length_as_raw] len(lower) == len(raw)
+//@ func parseGroupBy
+//@   requires [C35.lower_same_length_as_raw] len(lower) == len(raw)
+//@ func parseOrderBy
+//@   requires [C35.lower_same_length_as_raw] len(lower) == len(raw)
+//@ func parseOrderDesc
+//@   requires [C35.lower_same_length_as_raw] len(lower) == len(raw)
+//@ func parseJoinCondition
+//@   requires [C35.lower_same_length_as_raw] len(lower) == len(raw)
+
+// keywordIndex: -1 or a position inside the searched text (from the trusted contract of FindStringIndex).
+//@ func keywordIndex
+//@   ensures [C35.keyword_index_in_text] result == -1 || (0 <= result && result <= len(lower))
+//@ func clauseEnd
+//@   ensures [C35.clause_end_in_text] 0 <= result && result <= len(lower)
+//@   loop 1 invariant -1 <= rangeindex && rangeindex < len(stopKeywords) && 0 <= end && end <= len(lower)
+
+// asciiLower: same byte length, ASCII upper-case letters mapped to lower case, every other byte unchanged
+// (so keyword positions found in the result are positions of the original text).
+//@ func asciiLower
+//@   ensures [C35.ascii_lower_same_length] len(result) == len(s)
+
+// Havoc-only stubs (nothing assumed) so that the functions above can be explored path by path.
+//@ func splitColumns
+//@   modular
+//@ func parseSelectColumn
+//@   modular
+//@ func parseJoinExpr
+//@   modular
+//@ func splitIdentifiers
+//@   modular
